@@ -1470,6 +1470,17 @@ func checkCarried(p *Program, c *Collector, d FuncRuleSpec, fn *ssa.Function, ob
 		if oi, ok := obj.(ssa.Instruction); ok && region[oi.Block()] {
 			continue // created inside the same loop: fresh per iteration
 		}
+		// a whole-record assignment inside the loop before the read (the range statement stores the element into its loop
+		// variable on every iteration) starts the record afresh: nothing is carried over
+		fresh := false
+		for _, r2 := range *refs {
+			if s0, ok := r2.(*ssa.Store); ok && s0.Addr == obj && region[s0.Block()] && s0.Block().Dominates(ld.Block()) {
+				fresh = true
+			}
+		}
+		if fresh {
+			continue
+		}
 		// fields stored inside that loop
 		var partial []string
 		for _, r2 := range *refs {
@@ -2078,6 +2089,29 @@ func runMethodKeyed(p *Program, c *Collector, a FuncRuleSpec) {
 						accum = true
 					}
 				})
+				if !accum {
+					// the stored record is a local variable one of whose fields was built from the existing entry
+					// (merged.FunctionCalls = append(known.FunctionCalls, …) under `if known, ok := m[k]; ok`)
+					if ld, ok := mu.Value.(*ssa.UnOp); ok && ld.Op == token.MUL {
+						if al, ok := ld.X.(*ssa.Alloc); ok && al.Referrers() != nil {
+							for _, r := range *al.Referrers() {
+								fa, ok := r.(*ssa.FieldAddr)
+								if !ok || fa.Referrers() == nil {
+									continue
+								}
+								for _, r2 := range *fa.Referrers() {
+									if st, ok := r2.(*ssa.Store); ok && st.Addr == ssa.Value(fa) {
+										sf.val(st.Val).walk(func(x *Sym) {
+											if (x.Op == "lookup" || x.Op == "has") && len(x.Kids) == 2 && x.Kids[0].String() == m.String() && x.Kids[1].String() == k.String() {
+												accum = true
+											}
+										})
+									}
+								}
+							}
+						}
+					}
+				}
 				_, isConst := symStr(v)
 				switch {
 				case accum:
